@@ -6,7 +6,9 @@ name; every clause is a Python expression (a string) that both the symbolic eval
 """
 import ast
 
-REPO_LIB = "/repo/lib/sqlalchemy"
+import os
+
+REPO_LIB = os.environ.get("VERIF_REPO", "/repo") + "/lib/sqlalchemy"
 
 FUNCS = {}     # key -> Fn
 CLASSES = {}   # class name -> Cls
